@@ -29,3 +29,11 @@ package pluginregistry
 //@ iface ModelPlugin.Capabilities(ctx) (resp)
 //@   modifies nothing
 //@   ensures resp != nil
+
+//@ iface ModelPlugin.GetInfo() (info)
+//@   pure
+//@   ensures info != nil
+//@ iface ModelPlugin.GetPathValues(ctx, pathPrefix, jsonData) (values, err)
+//@   modifies checkFailures
+//@   ensures checkFailures == old(checkFailures) + ite(err == nil, 0, 1)
+//@   fresh values
